@@ -1,6 +1,6 @@
 import Ezc3dVerif.Model.Codec
 /-
-  Writers: Header.cpp:93-144, Parameters.cpp:227-275, Group.cpp:32-62, Parameter.cpp:43-135,
+  Writers: Header.cpp:93-144, Parameters.cpp:227-275, Group.cpp:32-62, Parameter.cpp:43-135, Group.cpp:32-74,
   Data.cpp:92-96, Point.cpp:33-39, Channel.cpp:33-36, ezc3d.cpp:73-101 (as of the fix: commits).
   The C++ writes a blank, continues, seeks back and patches; here a writer returns its bytes and,
   where the code remembers a stream position (`dataStartPosition`), the offset of that slot inside
@@ -47,8 +47,11 @@ def Param.writeValues (p : Param) (count : Nat) : Res Bytes :=
              else .ok ((p.strs.take count).map (strCell (p.dims.headD 0))).flatten
   | .none => .ok []
 
-/-- value part of a parameter record; second component: offset of the DATA_START slot -/
-def Param.writeData (p : Param) : Res (Bytes × Option Nat) :=
+/-- value part of a parameter record; second component: offset of the DATA_START slot.
+    `inPoint`: the record belongs to the group named POINT. Only there is an integer scalar named
+    DATA_START the special parameter of the standard (left blank, patched by `Parameters::write`); in any
+    other group `Group::write` puts the stored value back, which gives the bytes of the generic path. -/
+def Param.writeData (p : Param) (inPoint : Bool) : Res (Bytes × Option Nat) :=
   if hasSize p.dims > 0 then
     if p.type = .char then
       if p.dims.length = 1 then
@@ -56,7 +59,7 @@ def Param.writeData (p : Param) : Res (Bytes × Option Nat) :=
         | s0 :: _ => .ok (strCell (p.dims.headD 0) s0, none)
         | [] => .ub .vecIndex
       else (p.writeValues (p.dims.drop 1).prod).bind fun b => .ok (b, none)
-    else if p.name = DATA_START then .ok ([0, 0], some 0)
+    else if p.name = DATA_START ∧ p.type = .int ∧ hasSize p.dims = 1 ∧ inPoint = true then .ok ([0, 0], some 0)
     else (p.writeValues p.dims.prod).bind fun b => .ok (b, none)
   else .ok ([], none)
 
@@ -64,8 +67,8 @@ def dimBytes (dims : List Nat) : Bytes :=
   if dims = [1] then [0] else low8N dims.length :: dims.map low8N
 
 /-- `Parameter::write(f, groupIdx, dataStartPosition)`; `gid` is the (positive) group id. -/
-def Param.write (p : Param) (gid : Int) : Res (Bytes × Option Nat) :=
-  p.writeData.bind fun (vals, slot) =>
+def Param.write (p : Param) (gid : Int) (inPoint : Bool) : Res (Bytes × Option Nat) :=
+  (p.writeData inPoint).bind fun (vals, slot) =>
   let nameLen : Int := if p.locked then -(p.name.length : Int) else p.name.length
   let pre := [low8 nameLen, low8 gid] ++ toUpper p.name
   let body := [low8 p.type.code] ++ dimBytes p.dims
@@ -74,11 +77,11 @@ def Param.write (p : Param) (gid : Int) : Res (Bytes × Option Nat) :=
   .ok (pre ++ le16 off ++ body ++ tail, slot.map fun o => pre.length + 2 + body.length + o)
 
 /-- parameters of a group, in order; the last DATA_START slot wins -/
-def writeParamList (gid : Int) : List Param → Res (Bytes × Option Nat)
+def writeParamList (gid : Int) (inPoint : Bool) : List Param → Res (Bytes × Option Nat)
   | [] => .ok ([], none)
   | p :: rest =>
-    (p.write gid).bind fun (b, s1) =>
-    (writeParamList gid rest).bind fun (bs, s2) =>
+    (p.write gid inPoint).bind fun (b, s1) =>
+    (writeParamList gid inPoint rest).bind fun (bs, s2) =>
     .ok (b ++ bs, match s2 with | some o => some (b.length + o) | none => s1)
 
 /-- `Group::write(f, -(i+1), dataStartPosition)` -/
@@ -86,7 +89,7 @@ def Group.write (g : Group) (i : Nat) : Res (Bytes × Option Nat) :=
   let nameLen : Int := if g.locked then -(g.name.length : Int) else g.name.length
   let off : Int := 2 + 1 + g.desc.length
   let rec_ := [low8 nameLen, low8 (-((i : Int) + 1))] ++ toUpper g.name ++ le16 off ++ [low8N g.desc.length] ++ g.desc
-  (writeParamList ((i : Int) + 1) g.params).bind fun (bs, s) =>
+  (writeParamList ((i : Int) + 1) (g.name == POINT) g.params).bind fun (bs, s) =>
   .ok (rec_ ++ bs, s.map fun o => rec_.length + o)
 
 /-- groups in order; unnamed placeholder groups are skipped but still count for the numbering -/
